@@ -31,12 +31,12 @@ func shortFn(f *ssa.Function) string {
 		f = o
 	}
 	if f.Signature.Recv() != nil {
-		return f.Name()
+		return CanonName(f)
 	}
 	if f.Pkg != nil {
-		return lastElem(f.Pkg.Pkg.Path()) + "." + f.Name()
+		return lastElem(f.Pkg.Pkg.Path()) + "." + CanonName(f)
 	}
-	return f.Name()
+	return CanonName(f)
 }
 
 func exprD(v ssa.Value, d int, seen map[ssa.Value]bool) string {
@@ -56,7 +56,7 @@ func exprD(v ssa.Value, d int, seen map[ssa.Value]bool) string {
 		}
 		return x.Value.ExactString()
 	case *ssa.Parameter:
-		return x.Name()
+		return CanonParamName(x)
 	case *ssa.FreeVar:
 		return x.Name()
 	case *ssa.Global:
